@@ -322,10 +322,64 @@ def run(ck: vlib.Check):
                     viol("C04:selection", f"arrays({desc}) is not the projection of the full read onto {dets}", c, fi)
                 elif not set(dets) <= {d[0] for d in fl["dets"]}:
                     pass
+    glob_part(ck, [files[k] for k in range(min(7, many))])
     # selection vs the six-detector read needs a six-detector reference: the "full" call above uses all six (mask 63)
     for c, m, r in list(zip(calls, meta, impl))[:2] + [x for x in zip(calls, meta, impl) if x[1]["kind"] in ("beyond", "reread")][:2]:
         ck.sample({"call": {k: c[k] for k in ("n_blocks", "pb", "subs", "max_workers", "seq") if k in c}, "kind": m["kind"],
                    "outcome": r["outcome"], "orders": (r.get("orders") or [])[:2], "exc": r.get("exc")})
+
+
+def glob_part(ck, fl, replaying=False):
+    """concatenate_raw(<pattern>): the same files (names and contents) placed in directories that enumerate them differently (a hashed
+    directory index; a tmpfs filled in name order; a tmpfs filled in reverse name order) must give the same events in the same order -
+    the result may depend on content and selection only.  No order is presumed."""
+    import os, shutil, tempfile
+    names = ["run_%s.raw" % ch for ch in "abcdefg"][:len(fl)]
+    roots, dirs = [], []
+    try:
+        d0 = ck.bdir / "glob_hashed"
+        shutil.rmtree(d0, ignore_errors=True); d0.mkdir(parents=True)
+        dirs.append(("directory under build/ (creation in name order)", d0, names))
+        if os.path.isdir("/dev/shm") and os.access("/dev/shm", os.W_OK):
+            r = tempfile.mkdtemp(prefix="c04glob_", dir="/dev/shm"); roots.append(r)
+            for tag, order in (("tmpfs, files created in name order", names), ("tmpfs, files created in reverse name order", names[::-1])):
+                d = os.path.join(r, "d%d" % len(dirs)); os.mkdir(d)
+                dirs.append((tag, d, order))
+        else:
+            ck.notes.append("concatenate_raw(pattern): no tmpfs available, only one directory enumeration order exercised")
+        for tag, d, order in dirs:
+            for n in order:
+                write_file(os.path.join(str(d), n), fl[names.index(n)][1])
+        calls = [{"id": i, "paths": [], "glob": os.path.join(str(d), "run_*.raw"), "n_blocks": -1, "pb": None, "subs": None, "max_workers": None,
+                  "delay_seed": None, "guard": False, "native_so": None} for i, (tag, d, order) in enumerate(dirs)]
+        jp = ck.bdir / "jobs_glob.json"
+        jp.write_text(json.dumps({"calls": calls, "guard_s": 20}))
+        rc, so, se = vlib.run_impl_script("c03_impl.py", [jp], timeout=600)
+        if rc != 0:
+            ck.tie_broken("correspondence", "implementation run (concatenate_raw with a pattern)", (se or so)[-800:])
+            return 1
+        res = json.loads(so)["results"]
+        firsts = []
+        for (tag, d, order), r in zip(dirs, res):
+            ck.case(["glob", tag])
+            firsts.append((tag, sorted(os.listdir(str(d))) != os.listdir(str(d)), r["outcome"], [h[1] for h in r["values"][0]["hdr"]][:12] if r["outcome"] == "ok" else r.get("exc")))
+        ck.cov["concatenate_raw_pattern"] = [{"directory": t, "enumeration_differs_from_name_order": e, "outcome": o, "first_evt_no": f} for t, e, o, f in firsts]
+        bad = [i for i, r in enumerate(res) if r["outcome"] != "ok"]
+        if bad:
+            ck.violation("C04:concatenate_raw:pattern:" + res[bad[0]]["outcome"], f"concatenate_raw('{calls[bad[0]]['glob']}') over {len(names)} well-formed files: {res[bad[0]].get('exc')}",
+                         {"mode": "glob", "files": [f[1] for f in fl]})
+            return 1
+        for i in range(1, len(res)):
+            if res[i]["values"][0] != res[0]["values"][0]:
+                ck.violation("C04:concatenate_raw:pattern:directory-enumeration-order",
+                             f"concatenate_raw('<dir>/run_*.raw') over the same {len(names)} files (same names, same contents) returns the events in a different order "
+                             f"depending on how the directory enumerates them: {firsts[0][0]} -> evt_no {firsts[0][3]}; {firsts[i][0]} -> evt_no {firsts[i][3]}",
+                             {"mode": "glob", "files": [f[1] for f in fl]})
+                return 1
+        return 0
+    finally:
+        for r in roots:
+            shutil.rmtree(r, ignore_errors=True)
 
 
 def replay(path):
@@ -334,6 +388,14 @@ def replay(path):
     rp = data.get("replay") or {}
     if not rp.get("files"):
         return 0
+    if rp.get("mode") == "glob":
+        class _Ck:      # minimal stand-in: only what glob_part uses
+            bdir = vlib.BUILD / "C04_replay"; notes = []; cov = {}
+            def case(self, *a): pass
+            def tie_broken(self, *a): print("tie broken:", a)
+            def violation(self, key, what, rp): print("still fails on the current working tree:", key, what[:400])
+        _Ck.bdir.mkdir(exist_ok=True)
+        return glob_part(_Ck(), [(None, w, None) for w in rp["files"]])
     d = vlib.BUILD / "C04_replay"
     d.mkdir(exist_ok=True)
     p = d / "replay.raw"
